@@ -235,6 +235,10 @@ def run(run: C.Run):
     plumbing_cases(run, rng, 4, 3 if thorough else 2, 1500 if thorough else 300)
     nd_cases(run, rng, 5000 if thorough else 700, 3)
     xr_nd_cases(run, rng, 1500 if thorough else 250)
+    # slices are independent for POSITION-valued reductions too: >= 3-D values (batch axes), small chunks on the kept axes, several blocks
+    # along the reduced axis; chunked vs in memory (wide stream restricted to these shapes)
+    from tools.lib import fuzz as Z
+    Z.run_stream(run, rng, 1500 if thorough else 220, "C08", funcs=["argmax", "argmin", "nanargmax", "nanargmin", "sum", "nanmax", "nanfirst"], force={"nbatch": 2})
     if any(not o[1] for o in run.obligations) and not run.violations:
         run.violation({"property": "C08", "kind": "proof obligation / correspondence no longer checks",
                        "failed": P.failed_obligations(run)}, nofail=True, tag="obligation")
